@@ -92,6 +92,7 @@ def _invalidates_cache(f):
 
 class rrulebase(object):
     def __init__(self, cache=False):
+        self._generation = 0
         if cache:
             self._cache = []
             self._cache_lock = _thread.allocate_lock()
@@ -116,6 +117,8 @@ class rrulebase(object):
             self._cache_gen = self._iter()
 
         self._len = None
+        # Iterators started earlier must not publish what they find
+        self._generation += 1
 
     def _iter_cached(self):
         i = 0
@@ -127,20 +130,24 @@ class rrulebase(object):
             if i == len(cache):
                 acquire()
                 try:
-                    if self._cache_complete:
+                    # The cache was replaced if the set changed meanwhile
+                    current = cache is self._cache
+                    if current and self._cache_complete:
                         break
                     try:
                         for j in range(10):
                             cache.append(advance_iterator(gen))
                     except StopIteration:
-                        self._cache_gen = gen = None
-                        self._cache_complete = True
+                        gen = None
+                        if current:
+                            self._cache_gen = None
+                            self._cache_complete = True
                         break
                 finally:
                     release()
             yield cache[i]
             i += 1
-        while i < self._len:
+        while i < len(cache):
             yield cache[i]
             i += 1
 
@@ -1395,6 +1402,7 @@ class rruleset(rrulebase):
         self._exdate.append(exdate)
 
     def _iter(self):
+        generation = self._generation
         rlist = []
         self._rdate.sort()
         self._genitem(rlist, iter(self._rdate))
@@ -1424,7 +1432,8 @@ class rruleset(rrulebase):
             advance_iterator(ritem)
             if rlist and rlist[0] is ritem:
                 heapq.heapreplace(rlist, ritem)
-        self._len = total
+        if generation == self._generation:
+            self._len = total
 
 
 
